@@ -140,6 +140,22 @@ def run(m: Model, r: Report, tier: str) -> None:
     mtx = lm.key_for(base, "mutex", lm.locks)
     r.check(mtx is not None and all(mtx in lm.held_syntactic(rc, n) for n in ast.walk(rc.node) if isinstance(n, ast.Call) and ast.unparse(n.func) in ("self.close", "self.connect")),
             "R5", f"{rc.qualname}#under-transport-mutex", "close/connect of reconnect must run under the transport mutex", loc=rc.loc)
+    # end-of-stream returns at once from every stream read: a read() that loops around a stream read spins at EOF without yielding,
+    # so neither the caller's timeout nor the end-of-stream result is ever delivered
+    n_rd = 0
+    for cq in ("gallia.transports.base.LinesTransportMixin", "gallia.transports.tcp.TCPTransport", "gallia.transports.unix.UnixTransport"):
+        rd_ = m.require_class(cq).methods.get("read")
+        if rd_ is None:
+            continue
+        n_rd += 1
+        lp_ = [n.lineno for n in walk_no_nested(rd_.node) if isinstance(n, (ast.While, ast.For, ast.AsyncFor))
+               and any(isinstance(x, ast.Await) for x in ast.walk(n))]
+        r.check(not lp_, "R1", f"{rd_.qualname}#no-read-loop", f"loop around an awaited stream read at line(s) {lp_}: at end-of-stream the read returns immediately and the "
+                "loop starves the event loop (no timeout, no connection error, no reconnect)", loc=rd_.loc)
+    if n_rd < 3:
+        raise AnalysisError("stream transport read() functions not found")
+    from sa.uds_rules import reconnect_unsafe_rule
+    reconnect_unsafe_rule(m, r, "R5")
     ru = m.require_function(f"{CLIENT}.UDSClient.reconnect_unsafe")
     r.check(any(isinstance(n, ast.Assign) and ast.unparse(n.targets[0]) == "self.transport" and
                 ast.unparse(n.value).startswith("await self.transport.reconnect(") for n in ast.walk(ru.node)), "R5",
